@@ -695,6 +695,8 @@ func (env *Env) call(n *Node) *Value {
 		vn, vs := env.f.chanValsComp(c.Type)
 		el := c.Type.Underlying().(*types.Chan).Elem()
 		return term(sel(sel(e.comp(env.st, vn, arrSort(arrSort(vs))), c.T), arg(1).T), vs, el)
+	case "ntaken": // values taken from a channel by plain receives (not the hand-off idiom) so far
+		return term(sel(e.comp(env.st, "CH.taken", arrSort(sInt)), arg(0).T), sInt, intT)
 	case "nrecv":
 		return term(sel(e.comp(env.st, "CH.nrecv", arrSort(sInt)), arg(0).T), sInt, intT)
 	case "pending":
